@@ -246,6 +246,13 @@ def r2_case_analysis(P, rep, ctx):
     rep.check(len(mod) == 1 and "ret.modified[kpath] = diff" in norm(mod[0]), "C18.R2", fi.qual, "a common key is reported as modified iff its recursive comparison found a difference", fi.loc(), construct="modified iff diff", message="common keys are not reported exactly when their comparison is not None")
     sd = [norm(v) for k, v in defs.get("same_dir", []) if v is not None]
     rep.check(sd == ["not ret.added and (not ret.removed) and (not ret.modified)"], "C18.R2", fi.qual, "'no difference' for directories iff all three buckets are empty", fi.loc(), construct=f"same_dir = {sd}", message=f"same_dir is {sd}")
+    sdt = [t.idx for t in g.nodes if t.kind == "test" and norm(t.exprs[0]) == "same_dir"]
+    rep.check(bool(sdt) and all(all(isinstance(g.nodes[b].stmt, ast.Return) and norm(g.nodes[b].stmt.value) == "None" for b, l in g.succ[t] if l == "T") and all(isinstance(g.nodes[b].stmt, ast.Return) and norm(g.nodes[b].stmt.value) == "ret" for b, l in g.succ[t] if l == "F") for t in sdt), "C18.R2", fi.qual,
+              "identical directories give None, different ones the node", fi.loc(), construct="same_dir branch", message="compare returns the node for identical directories / None for different ones")
+    from .common import require_total
+
+    for q in (f"{D}.DiffNode.compare", f"{D}.DiffNode.nodes", f"{D}.DiffNode.children", f"{D}.DiffNode.status", f"{D}.DirDiff.get", f"{D}.DirDiff.annotate", f"{D}.DirDiff.status", f"{D}.DirDiff.compare", f"{D}.dir_paths"):
+        require_total(rep, ctx, "C18.R2", P.func(q))
     rep.check("kpath = ret.path / k" in norm(fi.node) and "ret = cls(path=path, prev=prev, curr=curr)" in norm(fi.node), "C18.R2", fi.qual, "child paths extend the node's path; the node records old and new entry", fi.loc(), construct="paths / entries", message="compare does not build child paths as ret.path / k or record prev/curr")
 
 
@@ -272,6 +279,8 @@ def r3_status(P, rep, ctx):
     t = norm(gt.node)
     ok = "prefixes = [path] + list(path.parents)" in t and "prefixes.pop()" in t and "(x for x in curr.children() if x.path == path)" in t and "if node is None: return None" in t.replace("\n", " ") and "return curr" in t
     rep.check(ok, "C18.R3", gt.qual, "lookup descends along the prefixes of the path, matching children by their full path", gt.loc(), construct="DirDiff.get", message="DirDiff.get does not walk the path's prefixes from the shortest, matching children by full path")
+    body = [norm(b) for b in gt.node.body if not (isinstance(b, ast.Expr) and isinstance(b.value, ast.Constant))]
+    rep.check("prefixes.pop()" in body and "if self._diff_root is None: return None" in [b.replace("\n", " ").replace("    ", " ").replace("  ", " ") for b in body], "C18.R3", gt.qual, "lookup drops the '.' prefix and returns None for an empty diff", gt.loc(), construct="get preamble", message="DirDiff.get lost its `prefixes.pop()` / empty-diff handling")
     ch = P.func(f"{D}.DiffNode.children")
     rep.check("[self.removed, self.modified, self.added]" in norm(ch.node), "C18.R3", ch.qual, "children() covers all three buckets", ch.loc(), construct="children()", message="children() does not chain removed, modified and added")
     ty = P.func(f"{D}.DiffNode._type")
